@@ -138,14 +138,14 @@ def prepare(path, out):
             "queues": queues}
 
 
-def _vt(body, h, metaname):
+def _vt(body, h, metaname, timeout=900):
     """vlib.validate_trace with a bounded heap (several validations run in parallel)"""
     path = body + ".hdr.ndjson"
     hdr = dict(h); hdr["e"] = "Header"
     with open(path, "w") as f:
         f.write(json.dumps(hdr) + "\n")
         f.write(open(body).read())
-    r = tlc("ApplyTrace.tla", "ApplyTrace.cfg", workers=1, timeout=900, env={"TRACE": path}, dfs=True, metaname=metaname, heap="2g")
+    r = tlc("ApplyTrace.tla", "ApplyTrace.cfg", workers=1, timeout=timeout, env={"TRACE": path}, dfs=True, metaname=metaname, heap="2g")
     if r.timeout:
         raise Broken("trace validation timed out (%s)" % body)
     if r.rc != 0 and r.violated is None and not r.accepted:
@@ -154,12 +154,12 @@ def _vt(body, h, metaname):
     return r
 
 
-def _validate(tr, tag):
+def _validate(tr, tag, timeout=900, rerun=True):
     body = tr + ".prep"
     h = prepare(tr, body)
-    r = _vt(body, h, "C10_tr" + tag)
-    if not r.accepted:
-        r = _vt(body, h, "C10_trb" + tag)
+    r = _vt(body, h, "C10_tr" + tag, timeout)
+    if not r.accepted and rerun:
+        r = _vt(body, h, "C10_trb" + tag, timeout)
     return r
 
 
@@ -196,7 +196,7 @@ def traces(v, tier, seed):
                 res = _validate(tr, str(i))
             elif os.path.exists(tr) and rc in (2, 70, 71):
                 try:   # only to say where the execution leaves the spec; the oracle / hang / crash is the verdict
-                    res = _validate(tr, str(i))
+                    res = _validate(tr, str(i), timeout=120, rerun=False) if os.path.getsize(tr) < 30000000 else None
                 except Broken:
                     res = None
             return i, s, perturb, tr, rc, err, res
